@@ -36,7 +36,7 @@ Print Assumptions index_error_exactly_out_of_range.
 
 Theorem out_of_range_constant_raises_index_error : forall f st bd c v s es n c1 c2,
   simp f st bd c v = Ok (Tuple es, c1) \/ simp f st bd c v = Ok (List es, c1) ->
-  simp f st bd c1 s = Ok (Const (CInt n), c2) ->
+  simp f st bd c1 s = Ok (Const (CInt n), c2) -> existsb is_starred es = false ->
   (n >= Z.of_nat (length es) \/ n < - Z.of_nat (length es))%Z ->
   simp (S f) st bd c (Subscript v s) = IndexErr.
 Proof. exact project_out_of_range_step. Qed.
@@ -49,10 +49,19 @@ Theorem non_constant_selector_left_intact : forall f st bd c v s v' s' c1 c2,
 Proof. exact odd_selector_step. Qed.
 Print Assumptions non_constant_selector_left_intact.
 
+(* a literal with a starred element (star-a, b)[0] has no fixed positions: the subscript stays (F37) *)
+Theorem starred_literal_left_intact : forall f st bd c v s es k c1 c2,
+  simp f st bd c v = Ok (Tuple es, c1) \/ simp f st bd c v = Ok (List es, c1) ->
+  simp f st bd c1 s = Ok (Const k, c2) -> existsb is_starred es = true ->
+  simp (S f) st bd c (Subscript v s)
+  = Ok (Subscript (match simp f st bd c v with Ok (v', _) => v' | _ => v end) (Const k), c2).
+Proof. exact starred_literal_step. Qed.
+Print Assumptions starred_literal_left_intact.
+
 (* a negative literal index -(n) is folded to a constant and projected like any other index *)
 Theorem negative_literal_index_projected : forall f st bd c v s es n c1 c2 x,
   simp f st bd c v = Ok (Tuple es, c1) \/ simp f st bd c v = Ok (List es, c1) ->
-  simp f st bd c1 s = Ok (UnaryOp USub (Const (CInt n)), c2) ->
+  simp f st bd c1 s = Ok (UnaryOp USub (Const (CInt n)), c2) -> existsb is_starred es = false ->
   py_index es (- n) = Some x -> (- Z.of_nat (length es) <= - n < Z.of_nat (length es))%Z ->
   simp (S f) st bd c (Subscript v s) = Ok (x, c2).
 Proof. exact negative_literal_step. Qed.
